@@ -261,6 +261,38 @@ def serializeBorsh (env : Env) (ty : AcctType) (tgt : Key) (cached : Option (Lis
       w.set tgt { w tgt with data := (w tgt).data.take ty.W ++ enc }
     else w
 
+/-! ## Repeated validation of one `Init` wrapper (`init.rs` 26-64)
+
+Every validate block ends with `self.needed_init.set(needed_init)` after a successful
+`init_account`: the flag is OVERWRITTEN by each successful validation (an error returns before the
+`set`, leaving the flag as it was). A wrapper starts with `needed_init = false`; a clone copies it. -/
+
+/-- The flag after one validation that answered `r`. -/
+def flagAfter (prev : Bool) (r : Res Bool) : Bool :=
+  match r with
+  | .ok b => b
+  | _ => prev
+
+/-- One validation request on a wrapper: `Create` / `CreateIfNeeded`, funder, initial value. -/
+structure Request where
+  ifNeeded : Bool
+  fa : FunderArg
+  enc : List Nat
+
+/-- State of a wrapper across validations: the world / log, its flag, the answers so far. -/
+structure Hist where
+  st : St
+  flag : Bool
+  answers : List (Res Bool)
+
+def validateOnce (env : Env) (ty : AcctType) (tgt : Target) (h : Hist) (q : Request) : Hist :=
+  let r := initValidate env ty q.ifNeeded tgt q.fa q.enc h.st
+  { st := r.2, flag := flagAfter h.flag r.1, answers := h.answers ++ [r.1] }
+
+/-- A history of validations of the same wrapper. -/
+def validateMany (env : Env) (ty : AcctType) (tgt : Target) (h : Hist) (qs : List Request) : Hist :=
+  qs.foldl (validateOnce env ty tgt) h
+
 /-- Transaction-level view: a failed instruction leaves nothing behind. -/
 def rollback {α : Type} (s0 : St) (r : Res α × St) : World :=
   match r.1 with
